@@ -79,7 +79,12 @@ func workerEval(args []string) {
 		seen := &sync.Map{}
 		workerGoroutines.Store(seen) // a read-ahead element of the previous case may still be running: it keeps its own map
 		before := workerTicks.Load()
-		res := evalOutcome(fg, f[3], []string{"a"}, []value.Value{value.Int(a)})
+		var res string
+		if strings.Contains(flags, "newstack") {
+			res = evalOutcomeNewStack(fg, f[3], a)
+		} else {
+			res = evalOutcome(fg, f[3], []string{"a"}, []value.Value{value.Int(a)})
+		}
 		ng := 0
 		seen.Range(func(k, v any) bool { ng++; return true })
 		fmt.Fprintf(out, "%s\t%s\tg=%d\tt=%d\n", f[0], res, ng, workerTicks.Load()-before)
@@ -215,4 +220,27 @@ func parallelBatches(cases []*workerCase, n int, race bool, gomaxprocs int, perC
 		}(part)
 	}
 	wg.Wait()
+}
+
+// evalOutcomeNewStack calls the generated function with a host-built stack (funcGen.NewStack), as the
+// repository's own tests do, instead of Func.Eval.
+func evalOutcomeNewStack(fg *value.FunctionGenerator, src string, a int) (out string) {
+	defer func() {
+		if r := recover(); r != nil {
+			out = fmt.Sprintf("PANIC %v", r)
+		}
+	}()
+	f, _, err := fg.Generate(src, "a")
+	if err != nil {
+		return "GENERR"
+	}
+	v, err := f(funcGen.NewStack[value.Value](value.Int(a)))
+	if err != nil {
+		return "ERR"
+	}
+	s, err := canonValue(v)
+	if err != nil {
+		return "ERR"
+	}
+	return "OK " + s
 }
